@@ -95,13 +95,27 @@ func runDescribe(e *Env) {
 			if discover {
 				to = group
 			}
-			good := mkFrame(svcDescrRes, append(mkDeviceDIB(fmt.Sprintf("dev%d", i)), mkFamDIB(1+i%4)...))
+			extra := []byte{}
+			if e.Choose("wl.extradib", 2) == 1 {
+				// further description blocks the library keeps unparsed (IP config, KNX addresses, manufacturer data)
+				for k := 1 + e.Choose("wl.nextra", 3); k > 0; k-- {
+					ty := []byte{3, 4, 5, 0xfe}[e.Choose("wl.extraty", 4)]
+					n := 2 + e.Choose("wl.extralen", 20)
+					blk := []byte{byte(2 + n), ty}
+					for j := 0; j < n; j++ {
+						blk = append(blk, byte(0xa0+i+j))
+					}
+					extra = append(extra, blk...)
+				}
+			}
+			good := mkFrame(svcDescrRes, append(append(mkDeviceDIB(fmt.Sprintf("dev%d", i)), mkFamDIB(1+i%4)...), extra...))
+			other := mkFrame(svcDescrRes, append(append(mkDeviceDIB(fmt.Sprintf("x%d", i)), mkFamDIB(2)...), bytesOf(0x55, len(extra))...))
 			if discover {
 				good = mkFrame(svcSearchRes, append(append(mkHPAI(1, [4]byte{10, 0, 1, byte(i)}, 3671), mkDeviceDIB(fmt.Sprintf("dev%d", i))...), mkFamDIB(1+i%4)...))
 			}
 			send := func(b []byte) { srv.WriteToUDP(b, to) }
 			noise := func() {
-				switch e.Choose("wl.noise", 5) {
+				switch e.Choose("wl.noise", 6) {
 				case 0:
 					send(mkConnStateRes(1, 0))
 				case 1:
@@ -116,6 +130,10 @@ func runDescribe(e *Env) {
 					}
 				case 4:
 					send(mkFrame(0x0999, []byte{1, 2, 3}))
+				case 5: // a description block of an unparsed type with an odd length
+					l := []byte{0, 1, 2, 3, 4, 5}[e.Choose("wl.oddlen", 6)]
+					ty := []byte{3, 4, 5, 0xfe, 0x77}[e.Choose("wl.oddty", 5)]
+					send(mkFrame(svcDescrRes, append(append(mkDeviceDIB("odd"), mkFamDIB(1)...), l, ty, 9, 9, 9)))
 				}
 			}
 			delay := func() time.Duration {
@@ -141,9 +159,12 @@ func runDescribe(e *Env) {
 				s.SleepFor(delay())
 				send(good)
 			case 2: // never
-			case 3: // repeatedly
+			case 3: // repeatedly, and something else right behind the answer
 				for k := 1 + e.Choose("wl.rep", 4); k > 0; k-- {
 					send(good)
+					if !discover && e.Choose("wl.behind", 2) == 0 {
+						send(other)
+					}
 					s.SleepFor(delay() / 4)
 				}
 			case 4: // noise first
@@ -336,4 +357,15 @@ func runDescribe(e *Env) {
 	if p := e.S.Stats.Probes; p != nil && e.S.Stats.ClockJumps > 0 {
 		e.Probe("busy-poll-on-closed-inbound")
 	}
+}
+
+func bytesOf(b byte, n int) []byte {
+	out := make([]byte, n)
+	for i := range out {
+		out[i] = b
+	}
+	if n >= 2 {
+		out[0], out[1] = byte(n), 0xfe // keep it a well-formed block
+	}
+	return out
 }
